@@ -276,6 +276,13 @@ def l183(k, cuts, maxlen, closes=False):
     # the application may close the websocket from inside a callback (server-initiated close): the client has not
     # seen that yet, its frames already in flight are still delivered
     ep.close_at = choose(k + 1, 'server_closes_at') if closes else k      # k = never
+    # a second websocket connection of the same process is in the middle of a frame while this one is served:
+    # connections do not share anything
+    ep2 = Endpoint()
+    buf2 = ws.WebSocketTemporaryRingBuffer(FakeRequest())
+    handler2 = ws.WebSocketTemporaryHandler(('h', 2), {}, {}, buf2, ep2)
+    other_frame = bytes([0x82, 0x83, 1, 2, 3, 4, 0x41 ^ 1, 0x42 ^ 2, 0x43 ^ 3])      # masked binary frame b'ABC'
+    handler2(other_frame[:4])
     stream = b''
     want = []
     for i in range(k):
@@ -298,6 +305,9 @@ def l183(k, cuts, maxlen, closes=False):
                 handler(chunk)
             except Exception as ex:
                 core.fail('handler raised on a segmented stream', error=repr(ex))
+    handler2(other_frame[4:])
+    check(len(ep2.log) == 1 and ep2.log[0][0] == Op.Binary and bytes(ep2.log[0][1]) == b'ABC' and ep2.close_at is None,
+          'the other connection receives exactly its own frame')
     check(len(ep.log) == k, 'every client frame is delivered exactly once')
     for (gop, gpay), (wop, wdata) in zip(ep.log, want):
         check(gop == wop, 'frames delivered in order with their opcode')
@@ -334,6 +344,14 @@ def replay_l183(cfg, m):
     ep = Ep()
     buf = c.WebSocketTemporaryRingBuffer(Req())
     handler = c.WebSocketTemporaryHandler(('h', 1), {}, {}, buf, ep)
+    ep2 = Ep()
+    ep2.close_at = -1
+    handler2 = c.WebSocketTemporaryHandler(('h', 2), {}, {}, c.WebSocketTemporaryRingBuffer(Req()), ep2)
+    other_frame = bytes([0x82, 0x83, 1, 2, 3, 4, 0x41 ^ 1, 0x42 ^ 2, 0x43 ^ 3])
+    try:
+        handler2(other_frame[:4])
+    except Exception as e:
+        return True, 'the other connection raised %r' % (e,)
     ops = [c.WebSocketOpCode.Binary, c.WebSocketOpCode.Ping, c.WebSocketOpCode.Pong]
     stream = b''
     want = []
@@ -351,6 +369,12 @@ def replay_l183(cfg, m):
                 handler(stream[a:b])
     except Exception as e:
         return True, 'handler raised %r for cuts %s of %d bytes' % (e, pos, len(stream))
+    try:
+        handler2(other_frame[4:])
+    except Exception as e:
+        return True, 'the other connection raised %r' % (e,)
+    if ep2.log != [(c.WebSocketOpCode.Binary, b'ABC')]:
+        return True, 'the other connection received %r instead of its own frame' % (ep2.log,)
     return ep.log != want, 'cuts=%s delivered=%d of %d' % (pos, len(ep.log), k)
 
 
